@@ -103,8 +103,10 @@ struct rng_t
         {
             return lo;
         }
-        const auto span = static_cast<uint64_t>(hi - lo) + 1ULL;
-        return lo + static_cast<int64_t>(next() % span);
+        // unsigned arithmetic: hi - lo may not fit int64_t (e.g. [-2^62, 2^62]); same values as before wherever it did fit
+        const auto span = static_cast<uint64_t>(hi) - static_cast<uint64_t>(lo) + 1ULL;
+        const auto draw = next();
+        return static_cast<int64_t>(static_cast<uint64_t>(lo) + (span == 0ULL ? draw : draw % span));
     }
 
     bool chance(double p) { return u01() < p; }
